@@ -329,6 +329,8 @@ pub fn scenarios(thorough: bool) -> Vec<Scenario> {
     v.push(two_patch_scenario("pair-two-patches", if thorough { 4 } else { 3 }, &[]));
     // cold readers: a replica that receives several versions at once / is reopened
     v.push(pair_conflict_scenario("pair-conflict-cold", 5, 11, if thorough { &[1, 2, 3] } else { &[2, 3] }, if thorough { 5 } else { 4 }, &[Op::Reopen(0), Op::Reopen(1)]));
+    v.push(emptied_scenario("pair-array-emptied-in-one-step-vs-insert", 1, if thorough { 4 } else { 3 }, &[]));
+    v.push(emptied_scenario("pair-array-emptied-in-two-steps-vs-insert", 2, if thorough { 4 } else { 3 }, &[]));
     v.extend(cross_scenarios(thorough));
     v
 }
